@@ -235,7 +235,9 @@ func runRPC(d *Defs, svcKey, methodKey, payload string) string {
 			}
 		}
 	}
-	var ctorMW, provMW, procMW []frugal.ServiceMiddleware
+	var provMW, procMW []frugal.ServiceMiddleware
+	// C16: the constructor slice is caller-owned with spare capacity (it is reused below)
+	ctorMW := make([]frugal.ServiceMiddleware, 0, k1+3)
 	for i := 0; i < k1; i++ {
 		ctorMW = append(ctorMW, tracer(i, &clientTrace, "a|"))
 	}
@@ -319,6 +321,15 @@ func runRPC(d *Defs, svcKey, methodKey, payload string) string {
 	}
 	defer tr.Close()
 	client := reflect.ValueOf(entry.NewClient(frugal.NewFServiceProvider(tr, pf, provMW...), ctorMW...))
+	// C16, when and from what the chain is composed: before the first call the caller reuses its slice for a
+	// second client of another provider (provider middleware label 900), appends to it (901) and overwrites its
+	// first element (902). The first client's chain is the one declared at ITS construction: none of these may
+	// show up in its trace, none of its own may be missing.
+	_ = entry.NewClient(frugal.NewFServiceProvider(tr, pf, tracer(900, &clientTrace, "a|")), ctorMW...)
+	_ = append(ctorMW, tracer(901, &clientTrace, "a|"))
+	if len(ctorMW) > 0 {
+		ctorMW[0] = tracer(902, &clientTrace, "a|")
+	}
 	mv := client.MethodByName(titleFirst(method))
 	if !mv.IsValid() {
 		return "client-has-no-method:" + method
